@@ -42,7 +42,7 @@ def mechanism(a, b):
 
 ORIENT = ["oblique", "vertical", "horizontal", "near-vertical", "near-horizontal"]
 QKINDS = ["beside", "beyond", "on", "vertex", "far", "near"]
-CKINDS = ["lattice", "half", "dec", "real", "map", "pyint"]
+CKINDS = ["lattice", "half", "dec", "real", "map", "pyint", "tiny", "mm_map"]
 
 
 # --------------------------------------------------------------------------
@@ -95,6 +95,12 @@ def _coord(rng, ck):
         return round(rng.uniform(-100, 100), rng.choice([1, 2, 3, 6]))
     if ck == "map":
         return rng.choice([650000.0, 6860000.0]) + round(rng.uniform(0, 2000), rng.choice([0, 2, 3]))
+    if ck == "tiny":
+        # degrees (or kilometres) loaded as local coordinates: everything happens within a few 1e-5 of a unit
+        return rng.uniform(-0.05, 0.05)
+    if ck == "mm_map":
+        # projected map coordinates (offsets of 1e5..1e7) with legs of millimetres to centimetres
+        return rng.choice([650000.0, 6860000.0]) + rng.uniform(0, 2000)
     return rng.uniform(-1000, 1000)
 
 
@@ -111,6 +117,10 @@ def _delta(rng, ck):
             d = round(rng.uniform(-60, 60), rng.choice([1, 2, 3, 6]))
         elif ck == "map":
             d = round(rng.uniform(-300, 300), rng.choice([0, 2, 3]))
+        elif ck == "tiny":
+            d = rng.choice([-1, 1]) * rng.uniform(2e-6, 9e-5)
+        elif ck == "mm_map":
+            d = rng.choice([-1, 1]) * rng.uniform(5e-4, 2e-2)
         else:
             d = rng.uniform(-400, 400)
         if d != 0.0:
@@ -619,7 +629,7 @@ def _run(case, ctx, given_track, query_track=None):
 
 # floors for the call-history workloads added in session 3 (a run in which they were silently skipped is inconclusive)
 _floors_base = floors
-_FLOORS_EXTRA = {'classes': {'history_reference_edited_in_place': 1000, 'coords:pyint': 3000,
+_FLOORS_EXTRA = {'classes': {'coords:tiny': 2000, 'coords:mm_map': 2000, 'history_reference_edited_in_place': 1000, 'coords:pyint': 3000,
                              'polyline_of_65+_vertices': 200}}
 
 
